@@ -547,3 +547,22 @@ def replay_file(path):
     rep = any(v == 'FAILED' for v in nat['outcomes'].values()) or nat['aborted']
     log('REPLAY %s' % ('reproduced: the real code fails on the recorded input' if rep else 'did not reproduce natively'))
     return 1 if rep else 0
+
+
+def setup():
+    """Run once after a fresh restore: generate kernel files and warm the cargo-kani build (offline)."""
+    try:
+        generate_all()
+    except Undecided as e:
+        log('setup: %s' % e)
+        return 2
+    crates = sorted(set(h['crate'] for h in load_hooks()))
+    rc = 0
+    for c in crates:
+        cmd = ['cargo', 'kani', '-p', c, '--target-dir', KANI_TARGET, '--only-codegen'] + KANI_FLAGS
+        p = subprocess.run(cmd, cwd=REPO, env=ENV, stdout=subprocess.PIPE, stderr=subprocess.STDOUT, text=True)
+        log('setup: warmed kani build of %s (exit %d)' % (c, p.returncode))
+        if p.returncode != 0:
+            log(p.stdout[-3000:])
+            rc = 1
+    return rc
